@@ -153,3 +153,12 @@ Proof. intros H. unfold touch_deadline. destruct (Z.geb_spec (now + tmo - dts) (
 Theorem touch_deadline_restart cfg now tmo dts :
   (now + tmo - dts < max_msg_timeout cfg)%Z -> touch_deadline cfg now tmo dts = (now + tmo)%Z.
 Proof. intros H. unfold touch_deadline. destruct (Z.geb_spec (now + tmo - dts) (max_msg_timeout cfg)); lia. Qed.
+
+Theorem delivery_from_queue cfg s k id now s' att :
+  step cfg s (ODeliver k id now) = (s', RDelivered att) ->
+  exists kl t c ch m q', find_client s k = Some kl /\ k_sub kl = Some (t, c) /\ get_chan s t c = Some ch /\
+    remove_msg id (c_queue ch) = Some (m, q') /\ att = m_att (bump m).
+Proof.
+  intros H. destruct (deliver_guard _ _ _ _ _ _ _ H) as (kl & t & c & ch & A & B & C & _ & _ & _ & _ & _ & m & q' & D & E).
+  exists kl, t, c, ch, m, q'. auto.
+Qed.
